@@ -1,3 +1,4 @@
+import ClapProofs.C01
 import ClapProofs.C04
 import ClapProofs.C13
 import ClapProofs.C14
